@@ -10,7 +10,9 @@ HERE = os.path.dirname(os.path.dirname(os.path.abspath(__file__)))
 
 def one(d):
     meta = json.load(open(os.path.join(d, "meta.json")))
-    checks = [c for c, v in meta["confirmed"]["result"]["checks"].items() if v["exit"] == 1]
+    # "incidental": checks that happened to exit 1 when the change was kept but for a reason that is not their property
+    # (e.g. an overflow to inf that one generated case ran into); they are not required to keep catching it
+    checks = [c for c, v in meta["confirmed"]["result"]["checks"].items() if v["exit"] == 1 and c not in meta.get("incidental", [])]
     tmp = tempfile.mkdtemp(prefix="bbreseed_")
     out = {"name": os.path.basename(d), "checks": {}}
     try:
